@@ -211,7 +211,7 @@ def report(ctx, failures):
         by_sig.setdefault(signature(shape, want, mode, out), []).append(f)
     for sig in sorted(by_sig):
         cases = sorted(by_sig[sig], key=lambda c: (len(json.dumps(c[0])), json.dumps(c[0], sort_keys=True), c[2]))
-        pick = next((c for c in cases if c[0]["tag"] == "MyStr" and "'" in c[0]["p"]), cases[0])
+        pick = next((c for c in cases if c[0]["tag"] == "MyStr" and c[0]["p"] == ["a", "'", "b"] and c[2] == "positional"), cases[0])
         shape, want, mode, out, err, why = pick
         tags = sorted(set(c[0]["tag"] for c in cases))
         ctx.violation("%s  [%d cases with this signature; outermost type tags: %s]" % (
